@@ -11,7 +11,7 @@ import (
 
 func init() {
 	register("C14", propMeta{
-		Explanation: "E-PANIC + E-CONST + E-GUARD over the broker's HTTP surface. O-0: the routes registered in main are enumerated from the http.Handle/HandleFunc calls. O-1: from every handler entry point (ServeHTTP methods, handler functions reached through the handler field, metric callbacks) no repository code path contains an explicit panic, Fatal/Exit or undischarged single-value assertion; the Prometheus With() panics are discharged by O-1b label-set agreement (literal key set of every prometheus.Labels{...} equals the label names given to that vector's constructor). O-2: a request body is only ever read through http.MaxBytesReader(w, r.Body, 100000) and a failed read answers 4xx without reaching the IPC layer. O-3: after each IPC call the success output is behind err == nil and every error path writes a 4xx/5xx status before returning. O-4: the legacy shim and the versioned path share the single ClientOffers call site. O-5 no unbounded wait inside a handler: the channel-rendezvous obligations of C04 (reply obligation, abandonable peer, claimed means committed, deregistration, lock hygiene) are evaluated here as well, under rule names prefixed O-5/C04. A handler panic makes net/http drop the connection without a response, so each clause is a necessary condition of 'every request gets a well-formed response'. Added after the second seeding round: O-6/C02 the Broker loop's poll goroutine works on its own poll (no captured loop variable) and the broker rows of the guarded-by table hold (an unlocked iteration of the id map is a fatal runtime error for the whole process). Added after the third seeding round: O-1d every status the legacy shim writes is a constant or comes from a table whose miss case yields a valid status. Added after the fourth seeding round: O-1e/O-1f the index and nil-error obligations on everything reachable from a handler; O-1g a WriteTimeout or TimeoutHandler of the broker's server is a constant above ClientTimeout and ProxyTimeout; O-6/C20 the broker's guarded-by rows (an unlocked map write is a fatal 'concurrent map writes' that answers nobody). Added after the fifth seeding round: O-1h no handler sets Content-Length or Transfer-Encoding; O-7/C19 zeroMetrics re-creates every per-period map NewMetrics created (a nil map panics in the next poll with the metrics lock held); the legacy path is confined to bodies starting with '{'.",
+		Explanation: "E-PANIC + E-CONST + E-GUARD over the broker's HTTP surface. O-0: the routes registered in main are enumerated from the http.Handle/HandleFunc calls. O-1: from every handler entry point (ServeHTTP methods, handler functions reached through the handler field, metric callbacks) no repository code path contains an explicit panic, Fatal/Exit or undischarged single-value assertion; the Prometheus With() panics are discharged by O-1b label-set agreement (literal key set of every prometheus.Labels{...} equals the label names given to that vector's constructor). O-2: a request body is only ever read through http.MaxBytesReader(w, r.Body, 100000) and a failed read answers 4xx without reaching the IPC layer. O-3: after each IPC call the success output is behind err == nil and every error path writes a 4xx/5xx status before returning. O-4: the legacy shim and the versioned path share the single ClientOffers call site. O-5 no unbounded wait inside a handler: the channel-rendezvous obligations of C04 (reply obligation, abandonable peer, claimed means committed, deregistration, lock hygiene) are evaluated here as well, under rule names prefixed O-5/C04. A handler panic makes net/http drop the connection without a response, so each clause is a necessary condition of 'every request gets a well-formed response'. Added after the second seeding round: O-6/C02 the Broker loop's poll goroutine works on its own poll (no captured loop variable) and the broker rows of the guarded-by table hold (an unlocked iteration of the id map is a fatal runtime error for the whole process). Added after the third seeding round: O-1d every status the legacy shim writes is a constant or comes from a table whose miss case yields a valid status. Added after the fourth seeding round: O-1e/O-1f the index and nil-error obligations on everything reachable from a handler; O-1g a WriteTimeout or TimeoutHandler of the broker's server is a constant above ClientTimeout and ProxyTimeout; O-6/C20 the broker's guarded-by rows (an unlocked map write is a fatal 'concurrent map writes' that answers nobody). Added after the fifth seeding round: O-1h no handler sets Content-Length or Transfer-Encoding; O-7/C19 zeroMetrics re-creates every per-period map NewMetrics created (a nil map panics in the next poll with the metrics lock held); the legacy path is confined to bodies starting with '{'. Added after the sixth seeding round and the mutation audit: O-8/C20 no channel of the broker is both closed and sent on without a common mutex (a send on a closed channel panics in the handler).",
 		NotDecided:  "net/http's own behaviour, byte-level well-formedness of responses, timing (C04), panics inside third-party libraries other than the label-mismatch panic of prometheus With().",
 		Assumptions: []string{"third-party/stdlib callees do not panic except prometheus With()/GetMetricWith on label mismatch", "net/http recovers handler panics by closing the connection (the behaviour the property forbids)"},
 	}, runC14)
@@ -100,6 +100,10 @@ func runC14(c *Ctx) {
 		c.undecided("O-0 routes", "broker.main", "-", "anchor does not resolve")
 		return
 	}
+	// a send on a closed channel panics inside the handler: net/http drops the connection without a response
+	c.prefix = "O-8/C20:"
+	c.checkNoSendRacesClose("O-8 no send races with a close", p.FnsIn("broker"))
+	c.prefix = ""
 	// ---- O-0 routes ----
 	var entries []*ssa.Function
 	routes := callsTo(mainFn, "net/http.Handle", "net/http.HandleFunc")
